@@ -81,6 +81,42 @@ for n in range(0, N_VARINT + 1):
                     if n == N_VARINT and cnt == 1:
                         ck.sample({'obligation': 'varint_roundtrip', 'vals': cv, 'encoded': ce})
 
+# --------------------------------------------------------------- A2. long lists, one large value
+# A decoder that works in blocks (alignment, chunking, SIMD-style fast paths) can only go wrong on inputs longer than a
+# block.  Full-width lists of that length are out of reach (10 length classes per value), so the family is: n values,
+# one of them arbitrary (any of the 10 encoded lengths, at any position), the others arbitrary single-byte values.
+LONG_NS = (9, 17) if T == 'quick' else tuple(range(3, 26))
+ck.declare('varint_roundtrip_long', f'lists of n in {list(LONG_NS)} values: one arbitrary u64 at any position, the others arbitrary values < 128',
+           'varint_decode(varint_encode(v)) == v')
+ck.bounds['long varint lists'] = f'n in {list(LONG_NS)}; exactly one value unconstrained, the rest < 128 (so encodings reach {max(LONG_NS) + 9} bytes)'
+for n in LONG_NS:
+    for pos in range(n):
+        vals = u64list('w', n)
+        st = ex.new_state()
+        for i, v in enumerate(vals):
+            if i != pos:
+                st.assume(z3.ULT(v.v, 128))
+        res = run_fn('varint_encode', [ref(Seq('u64', list(vals)))], st)
+        ck.note_path_problem(res, f'varint_encode long n={n} pos={pos}')
+        for r in res:
+            wit = lambda m, vals=vals: {'vals': [mval(m, v.v) for v in vals]}
+            if r.status == 'panic':
+                ck.require(ex, 'varint_roundtrip_long', r.pc, None, z3.BoolVal(False), wit, lambda m, w: 'varint')
+                continue
+            if r.status != 'return':
+                continue
+            res2 = run_fn('varint_decode', [ref(r.retval)], r.st)
+            ck.note_path_problem(res2, f'varint_decode long n={n} pos={pos}')
+            for r2 in res2:
+                if r2.status == 'panic':
+                    ck.require(ex, 'varint_roundtrip_long', r2.pc, None, z3.BoolVal(False), wit, lambda m, w: 'varint')
+                    continue
+                if r2.status != 'return':
+                    continue
+                out = r2.retval.elems
+                concl = z3.And([a.v == b.v for a, b in zip(out, vals)]) if len(out) == n else z3.BoolVal(False)
+                ck.require(ex, 'varint_roundtrip_long', r2.pc, None, concl, wit, lambda m, w: 'varint')
+
 # --------------------------------------------------------------- B/C. delta and id-list round trip
 ck.declare('ids_roundtrip_sorted', f'lists of 0..{N_IDS} non-decreasing u64', 'decompress_ids(compress_ids(x)) == x for sorted x')
 ck.declare('ids_roundtrip_unsorted', f'lists of 0..{N_IDS} u64, some descent', 'same for lists that are not sorted')
@@ -164,7 +200,7 @@ for v in ck.violations:
             rep = Replay.call({'op': 'ids_roundtrip', 'vals': v['witness']['ids']})
             v['replayed'] = (rep.get('equal') is False) or bool(rep.get('panic'))
             v['native'] = rep
-    elif v['obligation'] == 'varint_roundtrip' and 'vals' in v['witness']:
+    elif v['obligation'] in ('varint_roundtrip', 'varint_roundtrip_long') and 'vals' in v['witness']:
         e = Replay.call({'op': 'varint_encode', 'vals': v['witness']['vals']})
         d = Replay.call({'op': 'varint_decode', 'bytes': e.get('out', [])})
         v['replayed'] = d.get('out') != v['witness']['vals'] or len(e.get('out', [])) > 10 * len(v['witness']['vals'])
